@@ -149,12 +149,38 @@ def r11_7(prog: Program, rep):
            " - damage inside the trailer of the index goes undetected", g.nodes[raises[0]].line)
 
 
+def r11_8(prog: Program, rep):
+    """(a) the two 32-bit fields of a cache time are masked like dev/ino/size (struct.pack(">LL") raises for a time before 1970 or
+    after 2106 otherwise, and the whole index write is lost); (b) the extension loop never steps back over bytes that the
+    checksumming reader has already consumed: every signature read is either taken as an extension or refused by raising."""
+    m = prog.module(IDX)
+    f = m.funcs.get("write_cache_time")
+    if f is None:
+        raise AnalysisError("index.write_cache_time not found")
+    F = Folder(prog, m)
+    packs = [c for c in ast.walk(f.node) if isinstance(c, ast.Call) and dotted(c.func) == "struct.pack" and c.args]
+    ok = bool(packs) and all(len(c.args) >= 3 and all(bounded(a, 0xFFFFFFFF, F) for a in c.args[1:]) and not any(isinstance(a, ast.Starred) for a in c.args) for c in packs)
+    rep.ob("R11.8", IDX, f.qual, "seconds and nanoseconds are bounded to 32 bits before struct.pack('>LL')", ok,
+           "an unmasked time: a ctime/mtime before 1970 or after 2106 makes struct.pack raise and Index.write abort - the whole staging operation is lost; git "
+           "stores the low 32 bits", (packs or [f.node])[0].lineno)
+    r = m.funcs.get("read_index_dict_with_version")
+    if r is None:
+        raise AnalysisError("index.read_index_dict_with_version not found")
+    back = [c for c in ast.walk(r.node) if isinstance(c, ast.Call) and isinstance(c.func, ast.Attribute) and c.func.attr == "seek" and c.args
+            and isinstance(F.try_fold(c.args[0]), int) and F.try_fold(c.args[0]) < 0 and len(c.args) > 1 and F.try_fold(c.args[1]) == 1]
+    rep.ob("R11.8", IDX, r.qual, "the extension loop never seeks back over bytes already fed to the checksum", not back,
+           "a signature that is not four upper-case letters (git's `sdir` of a sparse index, `link` of a split index) is un-read with seek(-4, 1) after it went into "
+           "the running SHA-1: an undamaged index fails with ChecksumMismatch", back[0].lineno if back else r.node.lineno)
+
+
 def run(prog: Program, rep, tier="quick"):
     rep.rule("R11.6", "SAME-SOURCE: (sec, nsec) of ctime/mtime are quotient and remainder of one integer nanosecond value")
     rep.rule("R11.1", "TABLE-AGREE: reader and writer struct formats, read sizes, padding and extended-flag handling agree")
     rep.rule("R11.2", "bit-fields bounded: flags operands within 16 bits, name length within FLAG_NAMEMASK, dev/ino/size within 32 bits")
     rep.rule("R11.7", "trailer acceptance predicate of SHA1Reader.check_sha evaluated over a finite abstraction (4 trailer classes x allow_empty)")
     r11_7(prog, rep)
+    r11_8(prog, rep)
+    rep.rule("R11.8", "cache times masked to 32 bits; the extension loop never un-reads checksummed bytes")
     rep.rule("R11.3", "checksum verified on read, written (or zeroed under skipHash) on every normal path")
     rep.rule("R11.5", "SIBLINGS-AGREE: index v4 prefix-length varint codec == pack OFS_DELTA offset varint codec (git's varint.c)")
     rep.rule("R11.4", "entries sorted by path then stage; extensions preserved through self._extensions")
